@@ -18,17 +18,41 @@ pub fn noop_waker() -> Waker {
 #[derive(Debug)]
 pub struct BudgetExceeded;
 
-/// Polls `f` up to `budget` times (every scripted source becomes ready after finitely many polls,
-/// so re-polling after `Pending` is always legitimate here).
+thread_local! {
+    /// true when the last `BudgetExceeded` was a lost wake-up (Pending returned, nobody woke the task)
+    pub static LOST_WAKEUP: std::cell::Cell<bool> = const { std::cell::Cell::new(false) };
+}
+
+struct CountingWaker(std::sync::atomic::AtomicUsize);
+impl std::task::Wake for CountingWaker {
+    fn wake(self: std::sync::Arc<Self>) {
+        self.0.fetch_add(1, std::sync::atomic::Ordering::SeqCst);
+    }
+    fn wake_by_ref(self: &std::sync::Arc<Self>) {
+        self.0.fetch_add(1, std::sync::atomic::Ordering::SeqCst);
+    }
+}
+
+/// Polls `f` up to `budget` times, the way an executor would: after `Pending` it is polled again only
+/// if its waker was invoked (every scripted source wakes itself before returning `Pending`). A
+/// `Pending` with no wake-up can never make progress in this closed world: that is reported at once
+/// (lost wake-up = the task would hang in a real runtime).
 pub fn poll_budget<T>(
     budget: usize,
     mut f: impl FnMut(&mut Context<'_>) -> Poll<T>,
 ) -> Result<T, BudgetExceeded> {
-    let w = noop_waker();
+    let cw = std::sync::Arc::new(CountingWaker(std::sync::atomic::AtomicUsize::new(0)));
+    let w = Waker::from(cw.clone());
     let mut cx = Context::from_waker(&w);
+    LOST_WAKEUP.with(|l| l.set(false));
     for _ in 0..budget {
+        let before = cw.0.load(std::sync::atomic::Ordering::SeqCst);
         if let Poll::Ready(v) = f(&mut cx) {
             return Ok(v);
+        }
+        if cw.0.load(std::sync::atomic::Ordering::SeqCst) == before {
+            LOST_WAKEUP.with(|l| l.set(true));
+            return Err(BudgetExceeded);
         }
     }
     Err(BudgetExceeded)
